@@ -91,12 +91,14 @@ theorem C31_violated_proposer_presumed :
 
 /-! ### Map iteration order -/
 
-private def sE (p : Nat) (fe : Bool) : ESig := ⟨p, fe, .junk 0⟩
+private def eN (i p : Nat) : Delivery := .endorse i ⟨i, p, B p 0 false, false, .valid i (B p 0 false)⟩
+private def eE (i p : Nat) : Delivery := .endorse i ⟨i, p, B p 0 true, true, .valid i (B p 0 true)⟩
 
 /-- the `forEmpty` component of the verdict depends on the iteration order (the `done` component and the quorum
-statement above hold for every order) -/
+statement above hold for every order). Corpus line
+`P 4 1 0,1,2,3 e,0,0,1,8,0,0.8;e,0,0,1,10,1,0.10;e,1,1,1,8,0,1.8;e,1,1,1,10,1,1.10;e,2,2,1,8,0,2.8;e,3,3,1,10,1,3.10;cd`. -/
 theorem C31_forEmpty_depends_on_map_order :
-    let c : Cand := { endorseSigs := [(0, [sE 1 false, sE 1 true]), (1, [sE 1 false, sE 1 true]), (2, [sE 1 false]), (3, [sE 1 true])] }
+    let c := run .asShipped 4 {} [eN 0 1, eE 0 1, eN 1 1, eE 1 1, eN 2 1, eE 3 1]
     commitDone .asShipped 4 1 [0, 1, 2, 3] c [0, 1, 2, 3] 1 = (1, false, true) ∧
     commitDone .asShipped 4 1 [0, 1, 2, 3] c [3, 0, 1, 2] 1 = (1, true, true) := by decide
 
@@ -127,10 +129,10 @@ theorem C31_done_order_independent (v : Variant) (N Csrv : Nat) (endorsers : Lis
     simp [hb]
 
 /-- with entries naming the sentinel proposer `MaxUint32` even `done` depends on the order: the inner `break` on the
-sentinel skips the rest of that endorser's list -/
+sentinel skips the rest of that endorser's list. Corpus line
+`P 4 1 0,1,2,3 e,0,0,1,8,0,0.8;e,0,0,4294967295,34359738360,0,0.34359738360;e,1,1,1,8,0,1.8;e,1,1,4294967295,34359738360,0,1.34359738360;e,2,2,4294967295,34359738360,0,2.34359738360;e,2,2,1,8,0,2.8;e,3,3,4294967295,34359738360,0,3.34359738360;cd`. -/
 theorem C31_done_depends_on_map_order_with_sentinel :
-    let c : Cand := { endorseSigs := [(0, [sE 1 false, sE maxU32 false]), (1, [sE 1 false, sE maxU32 false]),
-                                     (2, [sE maxU32 false, sE 1 false]), (3, [sE maxU32 false])] }
+    let c := run .asShipped 4 {} [eN 0 1, eN 0 maxU32, eN 1 1, eN 1 maxU32, eN 2 maxU32, eN 2 1, eN 3 maxU32]
     commitDone .asShipped 4 1 [0, 1, 2, 3] c [0, 1, 2, 3] 1 = (maxU32, false, false) ∧
     commitDone .asShipped 4 1 [0, 1, 2, 3] c [2, 0, 1, 3] 1 = (1, false, true) := by decide
 
